@@ -153,7 +153,8 @@ def circuits_with_param(w: World, pid) -> set:
 @op("new_circuit")
 def _new_circuit(w, o):
     c = w.call(lw.Circuit, o["n"])
-    w.put("c", o["out"], c, params=set(), log=[["circuit", o["n"]]])
+    w.put("c", o["out"], c, params=set(), log=[["circuit", o["n"]]],
+          tomo_base=o.get("tomo_base"), tomo_part=o.get("tomo_part"))
     return c.n_modes
 
 
@@ -171,7 +172,8 @@ def _lib_gate(w, o):
     cls, _n = LIB_GATES[o["name"]]
     c = w.call(cls, *o.get("args", []))
     w.put("c", o["out"], c, params=set(),
-          log=[["lib_gate", o["name"], list(o.get("args", []))]])
+          log=[["lib_gate", o["name"], list(o.get("args", []))]],
+          tomo_part=o.get("tomo_part"))
     return c.n_modes
 
 
